@@ -27,12 +27,23 @@ DESIGN.md section 5 / C11 list, status:
   collapse_loop_terminates    proved: `collapse_chain_bounded` (any sequence of masks in which every round adds a fresh
                               member of the universe has at most |universe| rounds) and `collapse_loop_terminates` for the
                               loop model `Loop.run`
-  applied_relation_exact      NOT proved (solver level; it needs the shared solver model S plus models of impose_at /
-                              impose_as).  The implementation monitor checks it on every run and shows that it FAILS on
-                              the code as it is (known findings F21-F23, known_findings.d/C11.json).
+  applied_relation_exact      the CONSTRAINT that one applied CollapseAs collapse installs (impose_as over tools.connected,
+                              Model/CollapseApply.lean) is proved to make every collapsed pair - and every connected
+                              component of the pair set - exactly equal, to the ORIGINAL value at the group's key, and to
+                              leave every other parameter alone, for every iteration order of the set in which no pair
+                              joins two groups that already exist (`applied_pairs_equal_partial`,
+                              `applied_component_equal_partial`, `applied_frame`); that covers every star / chain sharing
+                              one parameter in ANY order and orientation (`applied_star_equal`) and every component grown
+                              pair by pair (`oneComponentOrder_noBridge`).  The unrestricted statement is FALSE for the
+                              code as it is: `applied_bridged_pair_not_tied_witness` (known finding F26; same mechanism
+                              as C16/F18).  NOT proved: the solver level (that every later evaluated point went through
+                              this constraint - it needs the shared solver model S) - the implementation monitor checks
+                              it on every run and shows that it FAILS on the code as it is (known findings F21-F23, F25).
 NOT modelled: collapse_cost / CollapseCost (bounds collapse), `update_mask(new=True)`, masks of mixed formats.
 -/
 import MysticVerif.Proofs.Collapse
+import MysticVerif.Proofs.CollapseApply
+import Mathlib.Logic.Relation
 
 namespace MysticVerif.C11
 open MysticVerif.Clps
@@ -960,5 +971,139 @@ example : Grows 3 [[], [1], [1, 0], [1, 0, 2]] := by
   intro x hx; simp at hx ⊢; omega
 
 end Loop
+
+/-! ## applying a pair collapse (`CollapseAs` -> `impose_as` over `tools.connected`) -/
+section Apply
+
+variable {R : Type}
+
+/-- **Every collapsed pair ends up inside one group of `tools.connected`, whatever the iteration order.**
+(The groups only grow and are never split.)  What can go wrong is only that two groups share a member. -/
+theorem connected_pair_in_group (pairs : List (Nat × Nat)) :
+    ∀ p ∈ pairs, ∃ g ∈ connected pairs, inGrp g p.1 = true ∧ inGrp g p.2 = true :=
+  (foldl_connAdd_pair pairs []).2
+
+/-- `impose_as` keeps the length of the parameter vector -/
+theorem applied_length (pairs : List (Nat × Nat)) (x : List R) : (applyAs pairs x).length = x.length :=
+  tieAll_length _ x
+
+/-- **Applied relation, exact (clause "every point evaluated afterwards ... equal to its partner"), for the code as
+it is.**  FULL statement (false, see `applied_bridged_pair_not_tied_witness`): for every set of in-range pairs in
+every iteration order, `impose_as` makes `x[i] = x[j]` for every pair.  PROVED: the same for every iteration order in
+which no pair joins two groups that exist when it is processed (`noBridge`, evaluated by the driver on the real
+iteration order of every case): every pair is tied exactly, and the common value is the value the ORIGINAL vector
+had at the key of the pair's group (nothing is invented).  Missing for the full statement: `connected` never merges
+two existing groups. -/
+theorem applied_pairs_equal_partial (pairs : List (Nat × Nat)) (x : List R) (hb : noBridge pairs = true)
+    (hr : ∀ p ∈ pairs, p.1 < x.length ∧ p.2 < x.length) :
+    ∀ p ∈ pairs, ∃ g ∈ connected pairs,
+      (applyAs pairs x)[p.1]? = x[g.1]? ∧ (applyAs pairs x)[p.2]? = x[g.1]? ∧ g.1 < x.length := by
+  have inv := foldl_connAdd_inv x.length pairs [] List.Pairwise.nil (fun g hg => by cases hg) hb hr
+  intro p hp
+  obtain ⟨g, hg, h1, h2⟩ := inv.2.2.2 p hp
+  exact ⟨g, hg, tieAll_group _ x inv.1 inv.2.1 g hg p.1 h1, tieAll_group _ x inv.1 inv.2.1 g hg p.2 h2,
+    inv.2.1 g hg g.1 (inGrp_key g)⟩
+
+/-- the pairs, read as an undirected graph on the parameters -/
+def Tied (pairs : List (Nat × Nat)) (a b : Nat) : Prop := (a, b) ∈ pairs ∨ (b, a) ∈ pairs
+
+/-- **All members of a connected component end up equal** (chains: two parameters each tied to a common third, not
+to each other, are equal to each other afterwards), under the same hypothesis as `applied_pairs_equal_partial`. -/
+theorem applied_component_equal_partial (pairs : List (Nat × Nat)) (x : List R) (hb : noBridge pairs = true)
+    (hr : ∀ p ∈ pairs, p.1 < x.length ∧ p.2 < x.length) (a b : Nat)
+    (hab : Relation.ReflTransGen (Tied pairs) a b) : (applyAs pairs x)[a]? = (applyAs pairs x)[b]? := by
+  induction hab with
+  | refl => rfl
+  | tail _ hbc ih =>
+    refine ih.trans ?_
+    rcases hbc with h | h
+    · obtain ⟨g, _, h1, h2, _⟩ := applied_pairs_equal_partial pairs x hb hr _ h
+      exact h1.trans h2.symm
+    · obtain ⟨g, _, h1, h2, _⟩ := applied_pairs_equal_partial pairs x hb hr _ h
+      exact h2.trans h1.symm
+
+/-- **Frame**: a parameter that is in no collapsed pair keeps its value - for EVERY iteration order. -/
+theorem applied_frame (pairs : List (Nat × Nat)) (x : List R) (hr : ∀ p ∈ pairs, p.1 < x.length ∧ p.2 < x.length)
+    (q : Nat) (hq : q < x.length) (hn : ∀ p ∈ pairs, q ≠ p.1 ∧ q ≠ p.2) : (applyAs pairs x)[q]? = x[q]? := by
+  have hsub := foldl_connAdd_sub pairs []
+  refine tieAll_frame _ x ?_ q hq ?_
+  · intro g hg m hm
+    rcases hsub g hg m hm with ⟨g0, h0, _⟩ | ⟨p, hp, h | h⟩
+    · cases h0
+    · exact h ▸ (hr p hp).1
+    · exact h ▸ (hr p hp).2
+  · intro g hg hc
+    rcases hsub g hg q (inGrp_of_mem hc) with ⟨g0, h0, _⟩ | ⟨p, hp, h | h⟩
+    · cases h0
+    · exact (hn p hp).1 h
+    · exact (hn p hp).2 h
+
+/-- **Orders that are always handled**: a pair set that is ONE component grown pair by pair - every pair after the
+first has a member among the members of the earlier pairs - never joins two existing groups. -/
+theorem oneComponentOrder_noBridge (pairs : List (Nat × Nat)) (h : oneComponentOrder pairs = true) :
+    noBridge pairs = true := by
+  cases pairs with
+  | nil => rfl
+  | cons p ps =>
+    have hb : bridges [] p.1 p.2 = false := by simp [bridges]
+    have hc : connAdd [] p = [(p.1, [p.2])] := by simp [connAdd, connStep]
+    simp only [noBridge, noBridgeFrom, hb, hc, Bool.not_false, Bool.true_and]
+    refine grown_noBridgeFrom ps (p.1, [p.2]) [p.1, p.2] ?_ h
+    intro a ha
+    have : a = p.1 ∨ a = p.2 := by simpa using ha
+    rcases this with h | h <;> simp [inGrp, h]
+
+/-- a star (all pairs share one parameter `c`, as first OR second member) in ANY order never joins two groups -/
+theorem star_noBridge (c : Nat) (pairs : List (Nat × Nat)) (hs : ∀ p ∈ pairs, p.1 = c ∨ p.2 = c) :
+    noBridge pairs = true := by
+  refine oneComponentOrder_noBridge pairs ?_
+  cases pairs with
+  | nil => rfl
+  | cons p ps =>
+    refine grown_of_star c ps [p.1, p.2] ?_ (fun q hq => hs q (List.mem_cons_of_mem _ hq))
+    rcases hs p List.mem_cons_self with h | h <;> simp [h]
+
+/-- **Chain collapse `{(i,k),(j,k)}` and every star: exact in every order and orientation.**  When all collapsed
+pairs share one parameter (two parameters each tied to a common third - lower, middle or higher index - and not to
+each other; a star with any number of arms), `impose_as` makes ALL of them equal, whatever order the set is iterated
+in and whichever member comes first in a pair. -/
+theorem applied_star_equal (c : Nat) (pairs : List (Nat × Nat)) (x : List R) (hs : ∀ p ∈ pairs, p.1 = c ∨ p.2 = c)
+    (hr : ∀ p ∈ pairs, p.1 < x.length ∧ p.2 < x.length) :
+    ∀ p ∈ pairs, ∀ q ∈ pairs, (applyAs pairs x)[p.1]? = (applyAs pairs x)[q.2]?
+      ∧ (applyAs pairs x)[p.1]? = (applyAs pairs x)[p.2]? := by
+  have hb := star_noBridge c pairs hs
+  intro p hp q hq
+  have hpe : (applyAs pairs x)[p.1]? = (applyAs pairs x)[p.2]? := by
+    obtain ⟨g, _, h1, h2, _⟩ := applied_pairs_equal_partial pairs x hb hr p hp
+    exact h1.trans h2.symm
+  refine ⟨?_, hpe⟩
+  have hpc : Relation.ReflTransGen (Tied pairs) p.1 c := by
+    rcases hs p hp with h | h
+    · rw [h]
+    · exact h ▸ Relation.ReflTransGen.single (.inl hp)
+  have hcq : Relation.ReflTransGen (Tied pairs) c q.2 := by
+    rcases hs q hq with h | h
+    · exact h ▸ Relation.ReflTransGen.single (.inl hq)
+    · rw [h]
+  exact applied_component_equal_partial pairs x hb hr _ _ (hpc.trans hcq)
+
+/-- **F26 witness (the unrestricted clause fails on the code as it is).**  The path `0-1-2-3` iterated as
+`(2,3), (0,1), (1,2)` (pairs exactly as `collapse_as` reports them, `i < j`): `connected` builds `{2: {3,1}, 0: {1}}`,
+the pair `(1,2)` joins two existing groups, `x[1]` is overwritten twice and the collapsed pair `(1,2)` is NOT equal
+afterwards. -/
+theorem applied_bridged_pair_not_tied_witness :
+    noBridge [(2, 3), (0, 1), (1, 2)] = false
+      ∧ connected [(2, 3), (0, 1), (1, 2)] = [(2, [3, 1]), (0, [1])]
+      ∧ applyAs [(2, 3), (0, 1), (1, 2)] ([10, 11, 12, 13] : List Int) = [10, 10, 12, 12] := by decide
+
+-- non-vacuity: the chain {(0,2),(1,2)} of the missed change, both iteration orders, and a star around the middle index
+example : noBridge [(0, 2), (1, 2)] = true ∧ applyAs [(0, 2), (1, 2)] ([10, 11, 12, 13] : List Int) = [10, 10, 10, 13] := by
+  decide
+example : noBridge [(1, 2), (0, 2)] = true ∧ applyAs [(1, 2), (0, 2)] ([10, 11, 12, 13] : List Int) = [11, 11, 11, 13] := by
+  decide
+example : oneComponentOrder [(1, 3), (0, 1), (1, 2), (3, 4)] = true
+    ∧ applyAs [(1, 3), (0, 1), (1, 2), (3, 4)] ([10, 11, 12, 13, 14] : List Int) = [11, 11, 11, 11, 11] := by decide
+
+end Apply
 
 end MysticVerif.C11
